@@ -122,7 +122,17 @@ type AxiomDecl struct {
 	Lemma   bool   // lemma: proved from earlier axioms/lemmas before being used
 }
 
+// DefineDecl: a spec-level abbreviation, expanded in the state of its use (so old(m(x)) reads the old state)
+type DefineDecl struct {
+	Name   string
+	Params []string
+	Text   string
+	File   string
+	Line   int
+}
+
 type ContractSet struct {
+	Defines map[string]*DefineDecl
 	Funcs  []*Contract
 	Ghosts []*GhostDecl
 	Specs  []*SpecDecl
@@ -262,6 +272,22 @@ func parseContractSource(cs *ContractSet, file, src, pkgPath string) error {
 				return fmt.Errorf("%s:%d: implcheck <prop> <pkg.Iface> <types...>", rl.file, rl.line)
 			}
 			cs.ImplChecks = append(cs.ImplChecks, &ImplCheck{Prop: f[0], Iface: f[1], Types: f[2:], PkgPath: pkgPath})
+			cur = nil
+		case "define":
+			m := regexp.MustCompile(`^([A-Za-z_][A-Za-z0-9_]*)\(([^)]*)\)\s*=\s*(.*)$`).FindStringSubmatch(rest)
+			if m == nil {
+				return fmt.Errorf("%s:%d: define name(params) = expr", rl.file, rl.line)
+			}
+			var ps []string
+			for _, q := range strings.Split(m[2], ",") {
+				if q = strings.TrimSpace(q); q != "" {
+					ps = append(ps, q)
+				}
+			}
+			if cs.Defines == nil {
+				cs.Defines = map[string]*DefineDecl{}
+			}
+			cs.Defines[m[1]] = &DefineDecl{Name: m[1], Params: ps, Text: m[3], File: rl.file, Line: rl.line}
 			cur = nil
 		case "view":
 			// view ghost[*T] = expr
